@@ -104,8 +104,18 @@ abbrev Vars := List (String × VarVal)
 
 def Vars.get (vs : Vars) (n : String) : Option VarVal := (vs.find? (·.1 == n)).map (·.2)
 
-abbrev Path := List String
+/-- one step of a response path: a response key or a list index (`ast.PathName` / `ast.PathIndex`) -/
+inductive Seg where
+  | key (s : String)
+  | idx (i : Nat)
+deriving Repr, DecidableEq, Inhabited
 
-def pathStr (p : Path) : String := "/".intercalate p
+def Seg.str : Seg → String
+  | .key s => s
+  | .idx i => toString i
+
+abbrev Path := List Seg
+
+def pathStr (p : Path) : String := "/".intercalate (p.map Seg.str)
 
 end GqlgenVerif
